@@ -1,10 +1,11 @@
 (* Extraction of the executable model to OCaml.  ExtrOcamlBasic only: N, positive and nat
    stay Coq datatypes; no Extract Constant of our own. *)
 From Coq Require Import Extraction ExtrOcamlBasic.
-From Portus Require Import Codec CodecSpec Cursor Reg Control Handle Loop Image ImageSpec Machine.
+From Portus Require Import Codec CodecSpec Cursor Reg Control Handle Loop Image ImageSpec Machine SrcSem Typing.
 Extraction Language OCaml.
 Extraction "model.ml" from_buf serialize_msg decode_all utf8_valid c04_ok msg_in_range
   run_script spec_run
   run_model collect_programs pick
   compile_and_serialize compile sc_get utf8_decode image_wf enc_le N.add N.mul N.ltb N.eqb N.modulo
-  dp_init read_msg conn_start invoke measure_bytes serialize_install serialize_bin.
+  dp_init read_msg conn_start invoke measure_bytes serialize_install serialize_bin
+  invoke_src env_get wt_prog clobbers_prog legacy_inf_prog new_with_scope prims0.
